@@ -225,7 +225,7 @@ def gauss_cases(draw, tier="quick"):
         c["scale_pow"] = 0
     else:
         c["int_dtype"] = False
-    sizes = [40, 60] if tier == "quick" else [40, 60, 74, 75, 76, 90]
+    sizes = [40, 60, 80] if tier == "quick" else [40, 60, 74, 75, 76, 90, 130]
     if draw(st.integers(0, 11 if tier == "quick" else 7)) == 0:
         # moderate and large true sizes (matrices from a seeded stream instead of generated entries): both sides of the real
         # threshold MIN_DIM_SPARSE = 75 in the thorough tier, and sizes where determinants leave the double range
@@ -418,6 +418,7 @@ def run_gauss(c, rec):
         if not c.get("true_size") and c["sparse_switch"] == "above":
             cuqi.config.MIN_DIM_SPARSE = 1
         arg = gauss_arg(c)
+        arg0 = arg.toarray().copy() if hasattr(arg, "toarray") else np.array(arg, dtype=float, copy=True)
         kw = {c["param"]: arg}
         if c["mean_kind"] != "vector":
             kw["geometry"] = n
@@ -450,6 +451,16 @@ def run_gauss(c, rec):
         require(close(_f(got) - got2, want - want2, tol), "Gaussian log-density differences wrong")
         ld = _f(d.logd(x.copy())) - _f(d.logd(x2.copy()))
         require(close(ld, want - want2, tol), "Gaussian logd is not logpdf plus a constant")
+        # the caller's matrix / vector is still what the caller passed, and the object reports that parameter
+        argn = arg.toarray() if hasattr(arg, "toarray") else np.asarray(arg, dtype=float)
+        require(maxdiff(argn, arg0) == 0, f"constructing / evaluating Gaussian({c['param']}=...) altered the array that was passed in",
+                structure=c["structure"], layout=c.get("layout"), n=n)
+        rep = getattr(d, c["param"], None)
+        if rep is not None and not callable(rep):
+            repn = rep.toarray() if hasattr(rep, "toarray") else np.asarray(rep, dtype=float)
+            if repn.shape == arg0.shape:
+                require(maxdiff(repn, arg0) <= 1e-12 * (1 + float(np.max(np.abs(arg0)))), f"Gaussian.{c['param']} does not report the parameter "
+                        "it was given", layout=c.get("layout"), n=n)
         # derived quantities denote the same distribution
         sp_ = d.sqrtprec
         sp_ = sp_.toarray() if hasattr(sp_, "toarray") else np.asarray(sp_)
